@@ -1,55 +1,83 @@
 import TabulaModel.Lemmas.LayoutElem
 import TabulaModel.Props.C09Api
 /-
-C09, `AnalysisResult.Elements` of `(*Analyzer).Analyze`: EXACTLY which fragments the element tree
-loses and which it shows more than once - for all inputs and all heuristic outcomes.
+C09, `AnalysisResult.Elements` of `(*Analyzer).Analyze`: every fragment exactly once - for all
+inputs and all heuristic outcomes (after the repair 8ee0e52), and EXACTLY which fragments the tree
+lost and which it showed more than once before it.
 
-`element_tree_once` is false for the code as it is (recorded findings
+`element_tree_once` was false for the code before 8ee0e52 (recorded findings
 C09/elements-lost-paragraph-covered-by-heading-or-list and
-C09/elements-duplicated-heading-or-list-also-in-paragraph): it stays a finding. This file says
-what holds instead, id by id:
+C09/elements-duplicated-heading-or-list-also-in-paragraph, now `fixed:`). This file says, id by id:
 
-* generic (any headings, lists, paragraphs): `element_tree_count`, `element_tree_lost_iff`,
-  `element_tree_no_invention`, `element_tree_exact`;
+* generic (any headings, lists, paragraphs): `element_tree_count`, `element_tree_exact`
+  (count in the tree = max (headings shown + lists) (paragraphs)), `element_tree_no_invention`;
+  for the old tree `element_tree_old_count`, `element_tree_old_lost_iff`, `element_tree_old_exact`;
 * for the analyzer (`Model/LayoutElem.lean`: headings = accepted page paragraphs, lists = runs of
   list candidates as `groupIntoLists` builds them, paragraphs = those of the reading order):
   every input fragment occurs at most once among the headings, at most once among the lists and
   at most once among the paragraphs (`analysis_headings_once`, `analysis_lists_once`,
-  `analysis_paragraphs_once`), so in `Elements()` it occurs
-  [in a heading] + [in a list] + [its paragraph is not suppressed] times (`analysis_elements_exact`,
-  at most 3: `analysis_elements_at_most_three`); it is LOST iff it is in no heading, in no list and
-  its paragraph is suppressed (`analysis_elements_lost_iff`); nothing is invented
-  (`analysis_elements_no_invention`); a page without headings and list candidates shows exactly
-  the paragraphs of the reading order (`analysis_elements_plain`).
+  `analysis_paragraphs_once`); a heading that shares a fragment with a list is an item of it and
+  is not emitted (`analysis_shown_once`); so in `Elements()` every id occurs at most once
+  (`analysis_elements_at_most_once`), exactly once when a paragraph, an emitted heading or a list
+  shows it (`analysis_elements_exact`), and EVERY input fragment with visible text occurs exactly
+  once (`element_tree_once`); nothing is invented (`analysis_elements_no_invention`); a page
+  without headings and list candidates shows exactly the paragraphs of the reading order
+  (`analysis_elements_plain`). The tree before the repair: `analysis_elements_old_exact`
+  ([in a heading] + [in a list] + [its paragraph is not suppressed] times, up to 3),
+  `analysis_elements_old_lost_iff`, and the `_pinned_counterexample`s at the recorded witnesses.
 -/
 namespace Tabula.C09Elem
 open Tabula.Layout Tabula.C09
 
 /-! ## any headings, lists and paragraphs -/
 
-/-- the element tree id by id: an id occurs as often as in the headings, plus in the lists, plus
-in the paragraphs that are not suppressed -/
-theorem element_tree_count (ov : Box → Box → Bool) (hs ls ps : List Elem) (i : Nat) :
-    (idsOf (elementTree ov hs ls ps)).count i =
-      (idsOf hs).count i + (idsOf ls).count i +
-        (idsOf (ps.filter fun p => !consumed ov hs ls p)).count i :=
-  count_elementTree ov hs ls ps i
+/-- the repaired element tree id by id: an id occurs as often as in the headings the tree emits,
+plus in the lists, plus in the paragraphs as far as those do not cover it -/
+theorem element_tree_count (rbox : Elem → List Nat → Box) (hs ls ps : List Elem) (i : Nat) :
+    (idsOf (elementTree rbox hs ls ps)).count i =
+      (idsOf (shownHeadings hs ls)).count i + (idsOf ls).count i +
+        ((idsOf ps).count i - ((idsOf ls).count i + (idsOf (shownHeadings hs ls)).count i)) :=
+  count_elementTree rbox hs ls ps i
+
+/-- EXACTLY how often, no hypothesis: as often as the emitted headings and the lists show it, or
+as often as the paragraphs show it - whichever is more. Nothing a paragraph shows is lost;
+nothing is shown more often than its sources show it. -/
+theorem element_tree_exact (rbox : Elem → List Nat → Box) (hs ls ps : List Elem) (i : Nat) :
+    (idsOf (elementTree rbox hs ls ps)).count i =
+      max ((idsOf (shownHeadings hs ls)).count i + (idsOf ls).count i) ((idsOf ps).count i) := by
+  rw [element_tree_count]
+  omega
 
 /-- nothing is invented: an id of the tree is an id of a heading, of a list or of a paragraph -/
-theorem element_tree_no_invention (ov : Box → Box → Bool) (hs ls ps : List Elem) (i : Nat)
-    (h : i ∈ idsOf (elementTree ov hs ls ps)) : i ∈ idsOf hs ∨ i ∈ idsOf ls ∨ i ∈ idsOf ps := by
-  rcases (mem_elementTree ov hs ls ps i).mp h with h | h | ⟨p, hp, _, hi⟩
-  · exact Or.inl h
-  · exact Or.inr (Or.inl h)
-  · exact Or.inr (Or.inr (List.mem_flatMap.mpr ⟨p, hp, hi⟩))
+theorem element_tree_no_invention (rbox : Elem → List Nat → Box) (hs ls ps : List Elem) (i : Nat)
+    (h : i ∈ idsOf (elementTree rbox hs ls ps)) : i ∈ idsOf hs ∨ i ∈ idsOf ls ∨ i ∈ idsOf ps := by
+  have hc := element_tree_count rbox hs ls ps i
+  have hp := List.count_pos_iff.mpr h
+  have hsub : (idsOf (shownHeadings hs ls)).count i ≤ (idsOf hs).count i :=
+    (sublist_flatMap _ List.filter_sublist).count_le i
+  by_cases h1 : 0 < (idsOf hs).count i
+  · exact Or.inl (List.count_pos_iff.mp h1)
+  · by_cases h2 : 0 < (idsOf ls).count i
+    · exact Or.inr (Or.inl (List.count_pos_iff.mp h2))
+    · exact Or.inr (Or.inr (List.count_pos_iff.mp (by omega)))
 
-/-- EXACTLY what is lost: an id is missing from the tree iff no heading and no list shows it and
+/-! ## the tree before the repair 8ee0e52 (history) -/
+
+/-- the old element tree id by id: an id occurs as often as in the headings, plus in the lists,
+plus in the paragraphs that are not suppressed -/
+theorem element_tree_old_count (ov : Box → Box → Bool) (hs ls ps : List Elem) (i : Nat) :
+    (idsOf (elementTreeOld ov hs ls ps)).count i =
+      (idsOf hs).count i + (idsOf ls).count i +
+        (idsOf (ps.filter fun p => !consumed ov hs ls p)).count i :=
+  count_elementTreeOld ov hs ls ps i
+
+/-- EXACTLY what the old tree lost: an id is missing iff no heading and no list shows it and
 every paragraph that shows it is suppressed -/
-theorem element_tree_lost_iff (ov : Box → Box → Bool) (hs ls ps : List Elem) (i : Nat) :
-    i ∉ idsOf (elementTree ov hs ls ps) ↔
+theorem element_tree_old_lost_iff (ov : Box → Box → Bool) (hs ls ps : List Elem) (i : Nat) :
+    i ∉ idsOf (elementTreeOld ov hs ls ps) ↔
       i ∉ idsOf hs ∧ i ∉ idsOf ls ∧ ∀ p ∈ ps, i ∈ p.ids → consumed ov hs ls p = true := by
   unfold idsOf
-  rw [mem_elementTree]
+  rw [mem_elementTreeOld]
   constructor
   · intro h
     refine ⟨fun a => h (Or.inl a), fun a => h (Or.inr (Or.inl a)), ?_⟩
@@ -62,14 +90,14 @@ theorem element_tree_lost_iff (ov : Box → Box → Bool) (hs ls ps : List Elem)
     · exact h2 h
     · rw [h3 p hp hi] at hc; exact Bool.noConfusion hc
 
-/-- EXACTLY how often: when an id occurs at most once among the headings, the lists and the
-paragraphs, it occurs in the tree [heading] + [list] + [paragraph not suppressed] times -/
-theorem element_tree_exact (ov : Box → Box → Bool) (hs ls ps : List Elem) (i : Nat)
+/-- EXACTLY how often in the old tree: when an id occurs at most once among the headings, the
+lists and the paragraphs, it occurs [heading] + [list] + [paragraph not suppressed] times -/
+theorem element_tree_old_exact (ov : Box → Box → Bool) (hs ls ps : List Elem) (i : Nat)
     (hh : (idsOf hs).count i ≤ 1) (hl : (idsOf ls).count i ≤ 1) (hp : (idsOf ps).count i ≤ 1) :
-    (idsOf (elementTree ov hs ls ps)).count i =
+    (idsOf (elementTreeOld ov hs ls ps)).count i =
       (if i ∈ idsOf hs then 1 else 0) + (if i ∈ idsOf ls then 1 else 0) +
         (if i ∈ idsOf (ps.filter fun p => !consumed ov hs ls p) then 1 else 0) := by
-  rw [element_tree_count, count_eq_ite hh, count_eq_ite hl]
+  rw [element_tree_old_count, count_eq_ite hh, count_eq_ite hl]
   have h3 : (idsOf (ps.filter fun p => !consumed ov hs ls p)).count i ≤ 1 :=
     Nat.le_trans ((sublist_flatMap _ List.filter_sublist).count_le i) hp
   rw [count_eq_ite h3]
@@ -109,6 +137,23 @@ theorem analysis_paragraphs_once (hz : Heur) (bh : BlockHeur) (eh : ElemHeur) (f
   rw [C09Order.ro_paragraphs_segment]
   exact readingOrder_lines_ids_le _ _ _ _ _ _ _ _ fs i
 
+/-- distinct fragment ids: the page paragraphs show every id at most once -/
+theorem pagePars_nodup (hz : Heur) (bh : BlockHeur) (eh : ElemHeur) (fs : List Frag)
+    (hn : (fs.map (·.id)).Nodup) : ((pagePars hz bh eh fs).flatMap (·.ids)).Nodup := by
+  rw [List.nodup_iff_count]
+  intro i
+  exact Nat.le_trans (pagePars_ids_le hz bh eh fs i) (List.nodup_iff_count.mp hn i)
+
+/-- the headings `Elements()` emits and the lists together show a fragment at most once: a
+heading that shares a fragment with a list is the same page paragraph as an item of that list,
+and the tree leaves it to the list -/
+theorem analysis_shown_once (hz : Heur) (bh : BlockHeur) (eh : ElemHeur) (fs : List Frag) (i : Nat)
+    (hn : (fs.map (·.id)).Nodup) :
+    (idsOf (shownHeadings (headingElems (pagePars hz bh eh fs)) (listElems 2 2 (pagePars hz bh eh fs)))).count i +
+      (idsOf (listElems 2 2 (pagePars hz bh eh fs))).count i ≤ 1 :=
+  Nat.le_trans (shown_le_page _ (pagePars_nodup hz bh eh fs hn) i)
+    (Nat.le_trans (pagePars_ids_le hz bh eh fs i) (List.nodup_iff_count.mp hn i))
+
 /-- `Elements()` invents nothing: every fragment id it shows is the id of an input fragment -/
 theorem analysis_elements_no_invention (hz : Heur) (bh : BlockHeur) (eh : ElemHeur) (fs : List Frag) (i : Nat)
     (h : i ∈ idsOf (analysisElements hz bh eh fs)) : i ∈ fs.map (·.id) := by
@@ -122,41 +167,151 @@ theorem analysis_elements_no_invention (hz : Heur) (bh : BlockHeur) (eh : ElemHe
   · exact pos _ h (analysis_lists_once hz bh eh fs i)
   · exact pos _ h (analysis_paragraphs_once hz bh eh fs i)
 
-/-- EXACTLY how often a fragment occurs in `Elements()`, for every page with distinct fragment
-ids and every outcome of every heuristic: [in a heading] + [in a list] + [in a paragraph that is
-not suppressed] -/
+/-- no fragment twice: for every page with distinct fragment ids and every outcome of every
+heuristic, `Elements()` shows an id at most once -/
+theorem analysis_elements_at_most_once (hz : Heur) (bh : BlockHeur) (eh : ElemHeur) (fs : List Frag) (i : Nat)
+    (hn : (fs.map (·.id)).Nodup) : (idsOf (analysisElements hz bh eh fs)).count i ≤ 1 := by
+  have h1 := analysis_shown_once hz bh eh fs i hn
+  have h2 := Nat.le_trans (analysis_paragraphs_once hz bh eh fs i) (List.nodup_iff_count.mp hn i)
+  unfold analysisElements pageElements
+  rw [element_tree_exact]
+  omega
+
+/-- EXACTLY once: for every page with distinct fragment ids and every outcome of every
+heuristic, `Elements()` shows an id once when a reading-order paragraph, an emitted heading or a
+list shows it, and not at all otherwise -/
 theorem analysis_elements_exact (hz : Heur) (bh : BlockHeur) (eh : ElemHeur) (fs : List Frag) (i : Nat)
     (hn : (fs.map (·.id)).Nodup) :
     (idsOf (analysisElements hz bh eh fs)).count i =
+      if i ∈ idsOf (roParElems hz bh eh fs) ∨
+          i ∈ idsOf (shownHeadings (headingElems (pagePars hz bh eh fs)) (listElems 2 2 (pagePars hz bh eh fs))) ∨
+          i ∈ idsOf (listElems 2 2 (pagePars hz bh eh fs)) then 1 else 0 := by
+  have h1 := analysis_shown_once hz bh eh fs i hn
+  have h2 := Nat.le_trans (analysis_paragraphs_once hz bh eh fs i) (List.nodup_iff_count.mp hn i)
+  have h3 : (idsOf (analysisElements hz bh eh fs)).count i =
+      max ((idsOf (shownHeadings (headingElems (pagePars hz bh eh fs)) (listElems 2 2 (pagePars hz bh eh fs)))).count i +
+        (idsOf (listElems 2 2 (pagePars hz bh eh fs))).count i) ((idsOf (roParElems hz bh eh fs)).count i) := by
+    unfold analysisElements pageElements
+    exact element_tree_exact _ _ _ _ i
+  split
+  · rename_i h
+    rcases h with h | h | h
+    · have := List.count_pos_iff.mpr h; omega
+    · have := List.count_pos_iff.mpr h; omega
+    · have := List.count_pos_iff.mpr h; omega
+  · rename_i h
+    have a1 : (idsOf (roParElems hz bh eh fs)).count i = 0 := List.count_eq_zero.mpr fun x => h (Or.inl x)
+    have a2 := List.count_eq_zero.mpr fun x => h (Or.inr (Or.inl x))
+    have a3 := List.count_eq_zero.mpr fun x => h (Or.inr (Or.inr x))
+    omega
+
+example : ((([⟨0, 72, 700, 30, 10, 10, [97]⟩, ⟨1, 110, 700, 30, 10, 10, [98]⟩] : List Frag)).map (·.id)).Nodup := by
+  decide
+
+/-- a fragment with visible text is in a paragraph of the reading order -/
+theorem roParElems_mem (hz : Heur) (bh : BlockHeur) (eh : ElemHeur) (fs : List Frag) (f : Frag)
+    (hf : f ∈ fs) (hv : visible f.text = true) : f.id ∈ idsOf (roParElems hz bh eh fs) := by
+  unfold roParElems idsOf
+  rw [ropars_ids]
+  unfold analyze Heur.readingOrder
+  simp only
+  rw [C09Order.ro_paragraphs_segment]
+  apply List.mem_map_of_mem
+  rw [← List.count_pos_iff, List.count_flatten,
+    C09Order.reading_order_lines_assign_once _ _ _ _ _ _ _ _ fs f hv]
+  exact List.count_pos_iff.mpr hf
+
+/-- `element_tree_once` (the recorded finding, now a theorem): for every page with distinct
+fragment ids and every outcome of every heuristic, every input fragment with visible text occurs
+in `Elements()` EXACTLY ONCE - not lost with a suppressed paragraph, not repeated by a heading or
+list next to its paragraph. (A fragment of white space only may be dropped with its line,
+`C09.buildLines_keeps`; it is shown at most once: `analysis_elements_at_most_once`.) -/
+theorem element_tree_once (hz : Heur) (bh : BlockHeur) (eh : ElemHeur) (fs : List Frag) (f : Frag)
+    (hn : (fs.map (·.id)).Nodup) (hf : f ∈ fs) (hv : visible f.text = true) :
+    (idsOf (analysisElements hz bh eh fs)).count f.id = 1 := by
+  rw [analysis_elements_exact hz bh eh fs f.id hn, if_pos (Or.inl (roParElems_mem hz bh eh fs f hf hv))]
+
+example : (⟨0, 72, 700, 30, 10, 10, [97]⟩ : Frag) ∈ ([⟨0, 72, 700, 30, 10, 10, [97]⟩, ⟨1, 110, 700, 30, 10, 10, [98]⟩] : List Frag) ∧
+    visible (⟨0, 72, 700, 30, 10, 10, [97]⟩ : Frag).text = true := by decide
+
+/-- the ids of `Elements()` are exactly those of the reading-order paragraphs whenever the
+headings and lists show only fragments of those paragraphs -/
+theorem analysis_elements_conserve (hz : Heur) (bh : BlockHeur) (eh : ElemHeur) (fs : List Frag)
+    (hn : (fs.map (·.id)).Nodup)
+    (hsub : ∀ i ∈ (pagePars hz bh eh fs).flatMap (·.ids), i ∈ idsOf (roParElems hz bh eh fs)) :
+    (idsOf (analysisElements hz bh eh fs)).Perm (idsOf (roParElems hz bh eh fs)) := by
+  unfold analysisElements pageElements
+  apply C09.element_tree_once
+  intro i
+  have h1 := shown_le_page _ (pagePars_nodup hz bh eh fs hn) i
+  have h2 := Nat.le_trans (pagePars_ids_le hz bh eh fs i) (List.nodup_iff_count.mp hn i)
+  by_cases hm : i ∈ (pagePars hz bh eh fs).flatMap (·.ids)
+  · have := List.count_pos_iff.mpr (hsub i hm)
+    unfold idsOf at *
+    omega
+  · have := List.count_eq_zero.mpr hm
+    unfold idsOf at *
+    omega
+
+/-! ### the tree before the repair 8ee0e52 -/
+
+/-- EXACTLY how often a fragment occurred in `Elements()` before the repair: [in a heading] +
+[in a list] + [in a paragraph that is not suppressed] -/
+theorem analysis_elements_old_exact (hz : Heur) (bh : BlockHeur) (eh : ElemHeur) (fs : List Frag) (i : Nat)
+    (hn : (fs.map (·.id)).Nodup) :
+    (idsOf (analysisElementsOld hz bh eh fs)).count i =
       (if i ∈ idsOf (headingElems (pagePars hz bh eh fs)) then 1 else 0) +
       (if i ∈ idsOf (listElems 2 2 (pagePars hz bh eh fs)) then 1 else 0) +
       (if i ∈ idsOf ((roParElems hz bh eh fs).filter fun p => !consumed bboxOverlaps
           (headingElems (pagePars hz bh eh fs)) (listElems 2 2 (pagePars hz bh eh fs)) p) then 1 else 0) := by
   have h1 : (fs.map (·.id)).count i ≤ 1 := List.nodup_iff_count.mp hn i
-  unfold analysisElements pageElements
-  exact element_tree_exact _ _ _ _ i
+  unfold analysisElementsOld pageElementsOld
+  exact element_tree_old_exact _ _ _ _ i
     (Nat.le_trans (analysis_headings_once hz bh eh fs i) h1)
     (Nat.le_trans (analysis_lists_once hz bh eh fs i) h1)
     (Nat.le_trans (analysis_paragraphs_once hz bh eh fs i) h1)
 
-example : ((([⟨0, 72, 700, 30, 10, 10, [97]⟩, ⟨1, 110, 700, 30, 10, 10, [98]⟩] : List Frag)).map (·.id)).Nodup := by
-  decide
-
-/-- a fragment is shown at most three times -/
-theorem analysis_elements_at_most_three (hz : Heur) (bh : BlockHeur) (eh : ElemHeur) (fs : List Frag) (i : Nat)
-    (hn : (fs.map (·.id)).Nodup) : (idsOf (analysisElements hz bh eh fs)).count i ≤ 3 := by
-  rw [analysis_elements_exact hz bh eh fs i hn]
-  split <;> split <;> split <;> omega
-
-/-- EXACTLY which fragments `Elements()` loses: those that no heading and no list shows and whose
-reading-order paragraph is suppressed by the box-overlap rule -/
-theorem analysis_elements_lost_iff (hz : Heur) (bh : BlockHeur) (eh : ElemHeur) (fs : List Frag) (i : Nat) :
-    i ∉ idsOf (analysisElements hz bh eh fs) ↔
+/-- EXACTLY which fragments `Elements()` lost before the repair: those that no heading and no
+list shows and whose reading-order paragraph is suppressed by the box-overlap rule -/
+theorem analysis_elements_old_lost_iff (hz : Heur) (bh : BlockHeur) (eh : ElemHeur) (fs : List Frag) (i : Nat) :
+    i ∉ idsOf (analysisElementsOld hz bh eh fs) ↔
       i ∉ idsOf (headingElems (pagePars hz bh eh fs)) ∧ i ∉ idsOf (listElems 2 2 (pagePars hz bh eh fs)) ∧
       ∀ p ∈ roParElems hz bh eh fs, i ∈ p.ids → consumed bboxOverlaps
         (headingElems (pagePars hz bh eh fs)) (listElems 2 2 (pagePars hz bh eh fs)) p = true := by
-  unfold analysisElements pageElements
-  exact element_tree_lost_iff _ _ _ _ i
+  unfold analysisElementsOld pageElementsOld
+  exact element_tree_old_lost_iff _ _ _ _ i
+
+/-- the recorded loss (finding C09/elements-lost-paragraph-covered-by-heading-or-list) on the
+tree before the repair: the page line "A" is a heading, the column paragraph "A B" is suppressed,
+fragment 1 is in no element -/
+theorem page_elements_loss_pinned_counterexample :
+    (1 : Nat) ∉ idsOf (pageElementsOld [⟨[0], ⟨72, 700, 100, 12⟩, 12, true, 0⟩] [⟨⟨72, 688, 100, 24⟩, [0, 1]⟩]) := by
+  decide +kernel
+
+/-- the recorded repetition (finding C09/elements-duplicated-heading-or-list-also-in-paragraph)
+on the tree before the repair: a heading in the second column (absolute x = 320) and its
+paragraph (column-relative x = 0) are both emitted -/
+theorem page_elements_dup_pinned_counterexample :
+    (idsOf (pageElementsOld [⟨[0], ⟨320, 700, 100, 12⟩, 12, true, 0⟩] [⟨⟨0, 700, 100, 12⟩, [0]⟩])).count 0 = 2 := by
+  decide +kernel
+
+/-- a heading that is also a list item: three times before the repair (heading, list, paragraph
+in a later column) -/
+theorem page_elements_triple_pinned_counterexample :
+    (idsOf (pageElementsOld
+      [⟨[0], ⟨320, 700, 100, 12⟩, 12, true, 2⟩, ⟨[1], ⟨320, 686, 100, 12⟩, 12, false, 2⟩]
+      [⟨⟨0, 686, 100, 26⟩, [0, 1]⟩])).count 0 = 3 := by
+  decide +kernel
+
+/-- the same three pages after the repair: every id exactly once -/
+example :
+    let rbox : Elem → List Nat → Box := fun p _ => p.box
+    idsOf (pageElements rbox [⟨[0], ⟨72, 700, 100, 12⟩, 12, true, 0⟩] [⟨⟨72, 688, 100, 24⟩, [0, 1]⟩]) = [0, 1] ∧
+    idsOf (pageElements rbox [⟨[0], ⟨320, 700, 100, 12⟩, 12, true, 0⟩] [⟨⟨0, 700, 100, 12⟩, [0]⟩]) = [0] ∧
+    idsOf (pageElements rbox
+      [⟨[0], ⟨320, 700, 100, 12⟩, 12, true, 2⟩, ⟨[1], ⟨320, 686, 100, 12⟩, 12, false, 2⟩]
+      [⟨⟨0, 686, 100, 26⟩, [0, 1]⟩]) = [0, 1] := by
+  refine ⟨?_, ?_, ?_⟩ <;> decide +kernel
 
 /-- a page on which no paragraph is taken for a heading or a list item: `Elements()` are the
 paragraphs of the reading order, nothing lost, nothing repeated -/
@@ -217,10 +372,10 @@ example :
 example : listBox [⟨72, 700, 100, 10⟩, ⟨90, 688, 120, 10⟩, ⟨60, 690, 10, 30⟩] = ⟨60, 688, 150, 32⟩ := by
   decide +kernel
 
-/-- the recorded loss, now located: fragment 1 is in the suppressed paragraph and in no heading -/
+/-- the recorded loss on the old tree, located: fragment 1 is in the suppressed paragraph and in no heading -/
 example :
-    (1 : Nat) ∉ idsOf (elementTree bboxOverlaps [⟨⟨72, 700, 100, 12⟩, [0]⟩] [] [⟨⟨72, 688, 100, 24⟩, [0, 1]⟩]) ∧
-    (idsOf (elementTree bboxOverlaps [⟨⟨72, 700, 100, 12⟩, [0]⟩] [] [⟨⟨72, 688, 100, 24⟩, [0, 1]⟩])).count 0 = 1 := by
+    (1 : Nat) ∉ idsOf (elementTreeOld bboxOverlaps [⟨⟨72, 700, 100, 12⟩, [0]⟩] [] [⟨⟨72, 688, 100, 24⟩, [0, 1]⟩]) ∧
+    (idsOf (elementTreeOld bboxOverlaps [⟨⟨72, 700, 100, 12⟩, [0]⟩] [] [⟨⟨72, 688, 100, 24⟩, [0, 1]⟩])).count 0 = 1 := by
   decide +kernel
 
 end Tabula.C09Elem
